@@ -177,3 +177,13 @@ Fixpoint held_until_pass (c : cfg) (id : N) (st : state) (tr : list (Z * event))
   | [] => True
   | (now, ev) :: r => if takes_pass st ev then True else held_until_pass c id (fst (step true c st now ev)) r
   end.
+
+(* ---------- environment vocabulary of the end-to-end liveness theorem ---------- *)
+Definition ev_count (ev : event) : nat :=
+  match ev with ENotify _ _ _ interested _ _ => length interested | _ => 0%nat end.
+(* how many (item, announcement) pairs the trace feeds into the announces cache *)
+Definition announced_count (tr : list (Z * event)) : nat :=
+  fold_right (fun x a => (ev_count (snd x) + a)%nat) 0%nat tr.
+(* clock: t0 <= first event <= second <= ... *)
+Fixpoint clock_ok (t : Z) (tr : list (Z * event)) : Prop :=
+  match tr with [] => True | (now, _) :: r => (t <= now)%Z /\ clock_ok now r end.
